@@ -148,9 +148,22 @@ def task_shape(nblocks, nvars, por, perm, seq, timing, reset, cycles=2, toughrea
                 # exact decimal rounding for the one value that is printed at two
                 # precisions: restricted to the decade [1,10) so that it is linear
                 R6, R9 = strs.Rfunc('e', 6), strs.Rfunc('e', 9)
-                def exact(x, p): return z3.ToReal(z3.ToInt(x * 10 ** p + z3.RealVal(Fraction(1, 2)))) / 10 ** p
-                c.add(z3.And(s >= 1, s < 10))
-                c.add(R9(s) == exact(s, 9)); c.add(R6(s) == exact(s, 6)); c.add(R6(R9(s)) == exact(exact(s, 9), 6))
+                # integer form (no ToInt of a real product): s = (K + f) / 10^9 with an integer K and a
+                # fraction f kept clear of 0, 1/2 and 1 (a witness that close to a tie would not survive the
+                # conversion to a double); then R9(s) = K2 / 10^9 with K2 = K + [f > 1/2],
+                # R6(s) = ((K + 500) div 1000) / 10^6 and R6(R9(s)) = ((K2 + 500) div 1000) / 10^6.
+                # (K2 = 500 (mod 1000) is an exact decimal tie of the 9-digit value: printf decides it by the
+                # binary representation of the double; the model rounds it up and the replay on the real
+                # code has the last word - this is the known finding rewrite-header/sumtim-double-rounding)
+                K, f = z3.Int('dr.K'), z3.Real('dr.f')
+                c.add(z3.And(K >= 10 ** 9, K < 10 ** 10 - 1))
+                c.add(z3.Or(z3.And(f >= z3.RealVal(Fraction(1, 1000)), f <= z3.RealVal(Fraction(499, 1000))),
+                            z3.And(f >= z3.RealVal(Fraction(501, 1000)), f <= z3.RealVal(Fraction(999, 1000)))))
+                c.add(s == (z3.ToReal(K) + f) / 10 ** 9)
+                K2 = K + z3.If(f > z3.RealVal(Fraction(1, 2)), 1, 0)
+                c.add(R9(s) == z3.ToReal(K2) / 10 ** 9)
+                c.add(R6(s) == z3.ToReal((K + 500) / 1000) / 10 ** 6)
+                c.add(R6(R9(s)) == z3.ToReal((K2 + 500) / 1000) / 10 ** 6)
             inc.timing = dict(tm)
         r0, _ = c.reachable()
         if r0 != 'sat':
